@@ -34,9 +34,9 @@ EXPLANATION = ("Deductive: the remember/apply protocol of apply_preprocessing (n
                "steps is outside this property's contracts; see C07).")
 
 
-def unit_apply_options(tier=None, seed=None):
+def unit_apply_options(tier=None, seed=None, prop="C06"):
     """preproc.apply: deep copy of per-step options; ret_details never written to the caller's dict"""
-    S = Session("C06", "preproc.apply", "nanite.preproc:apply")
+    S = Session(prop, "preproc.apply", "nanite.preproc:apply")
     st = {}
 
     def setup(I):
